@@ -71,6 +71,13 @@ func TestC15(t *testing.T) {
 			// the failing reader may also offer what in-memory readers offer (Len, as strings.Reader and bytes.Buffer
 			// do): code that sizes its buffers from it must still see the failure
 			hasLen := rapid.IntRange(0, 2).Draw(t, "readerhaslen") == 0
+			// ... or Seek, like files: a Seek that fails is a failure of the reader as well
+			failSeekAt := -1
+			hasSeek := !hasLen && rapid.IntRange(0, 3).Draw(t, "readerhasseek") == 0
+			if hasSeek {
+				failSeekAt = rapid.IntRange(-1, 4).Draw(t, "failseekat")
+			}
+			seekFailed := false
 			mk := func(failAt int) io.Reader {
 				rd := hx.NewChunkReader(data, c.schedule, c.eofWith)
 				rd.NoCycle = c.noCycle
@@ -78,12 +85,39 @@ func TestC15(t *testing.T) {
 				if hasLen {
 					return hx.LenReader{ChunkReader: rd}
 				}
+				if hasSeek {
+					seeks := 0
+					seekFailed = false
+					return hx.SeekReader{ChunkReader: rd, FailSeekAt: failSeekAt, Seeks: &seeks, Failed: &seekFailed}
+				}
 				return rd
 			}
+			saveSeek := failSeekAt
+			failSeekAt = -1 // the fault-free reference
 			full := qframe.ReadCSV(mk(-1), c.confFns()...)
+			failSeekAt = saveSeek
 			if full.Err != nil {
 				evC15.Case(false, desc, "input-rejected-without-fault")
 				return
+			}
+			// a reader that can Seek and whose n-th Seek call fails (n = 0..3), the data itself being readable: an error,
+			// or the complete frame - never an error-free frame with rows missing
+			for fs := 0; fs <= 3; fs++ {
+				rd := hx.NewChunkReader(data, c.schedule, c.eofWith)
+				rd.NoCycle = c.noCycle
+				seeks, failed := 0, false
+				var res qframe.QFrame
+				if perr := hx.Safely(func() {
+					res = qframe.ReadCSV(hx.SeekReader{ChunkReader: rd, FailSeekAt: fs, Seeks: &seeks, Failed: &failed}, c.confFns()...)
+				}); perr != nil {
+					t.Fatalf("ReadCSV panicked when Seek call %d of the reader failed: %v\n%s", fs, perr, desc())
+				}
+				if res.Err == nil {
+					got, err := hx.Observe(res)
+					if err != nil || res.Len() != full.Len() || hx.Diff(hx.MustObserve(full), got) != "" {
+						t.Fatalf("Seek call %d of the reader failed (%d Seek calls made) but ReadCSV returned an error-free frame with %d of %d rows\n%s", fs, seeks, res.Len(), full.Len(), desc())
+					}
+				}
 			}
 			fullT, err := hx.Observe(full)
 			if err != nil {
@@ -247,11 +281,12 @@ func TestC15(t *testing.T) {
 			evC15.Case(n >= 2, desc, "kind:tosql")
 		case "readsql":
 			rs := genResultSet(t, 1)
-			desc := func() string { return "ReadSQL under driver faults\n" + rs.String() }
+			serr := rapid.SampledFrom(faults.SQLErrors).Draw(t, "sqlerr")
+			desc := func() string { return fmt.Sprintf("ReadSQL under driver faults (error %v)\n%s", serr, rs.String()) }
 			run := func(plan func(m *faults.MemDB)) qframe.QFrame {
 				m, db := faults.New()
 				defer m.Release(db)
-				m.Cols, m.Rows = rs.Cols, rs.Rows
+				m.Cols, m.Rows, m.Err = rs.Cols, rs.Rows, serr
 				plan(m)
 				tx, err := db.Begin()
 				if err != nil {
